@@ -24,3 +24,42 @@ pub proof fn lemma_repeat_doc_closed(d: DocV, n: nat, unit: int)
     reveal_with_fuel(tr, 3); reveal_with_fuel(nest_ok, 3); reveal_with_fuel(repeat_doc, 2);
     if n > 0 { lemma_repeat_doc_closed(d, (n - 1) as nat, unit); }
 }
+
+/// free (not yet placed) comments: all comment-safe; only the last one may be an unterminated line comment
+pub open spec fn free_ok(free: Seq<DocV>, unit: int) -> bool {
+    forall|i: int| 0 <= i < free.len() ==> nest_ok(#[trigger] free[i], unit) && t_safe(free[i]) && (i < free.len() - 1 ==> !t_may_open(free[i]))
+}
+pub open spec fn free_pending(free: Seq<DocV>) -> bool { free.len() > 0 && t_may_open(free.last()) }
+pub open spec fn last_after_closed(items: Seq<ItemV>) -> bool {
+    items.len() > 0 ==> (match items.last() { ItemV::Commented { body, after } => (after matches Some(a) ==> !t_may_open(a)), _ => true })
+}
+pub proof fn lemma_intersperse_closed(s: Seq<DocV>, sep: DocV, unit: int)
+    requires forall|i: int| 0 <= i < s.len() ==> doc_closed(#[trigger] s[i], unit), doc_closed(sep, unit),
+    ensures doc_closed(intersperse_doc(s, sep), unit),
+    decreases s.len(),
+{
+    reveal_with_fuel(tr, 4); reveal_with_fuel(nest_ok, 4); reveal_with_fuel(intersperse_doc, 2);
+    if s.len() > 1 {
+        assert forall|i: int| 0 <= i < s.drop_last().len() implies doc_closed(#[trigger] s.drop_last()[i], unit) by { assert(s.drop_last()[i] == s[i]); }
+        lemma_intersperse_closed(s.drop_last(), sep, unit);
+        assert(doc_closed(s.last(), unit));
+    } else if s.len() == 1 { assert(doc_closed(s[0], unit)); }
+}
+/// interspersing free comments with a blank: safe, and open exactly if the last one is
+pub proof fn lemma_intersperse_free(s: Seq<DocV>, unit: int)
+    requires free_ok(s, unit),
+    ensures
+        nest_ok(intersperse_doc(s, sp()), unit), t_safe(intersperse_doc(s, sp())),
+        t_may_open(intersperse_doc(s, sp())) ==> free_pending(s),
+    decreases s.len(),
+{
+    reveal_with_fuel(tr, 4); reveal_with_fuel(nest_ok, 4); reveal_with_fuel(intersperse_doc, 2);
+    if s.len() > 1 {
+        let p = s.drop_last();
+        assert forall|i: int| 0 <= i < p.len() implies nest_ok(#[trigger] p[i], unit) && t_safe(p[i]) && !t_may_open(p[i]) by { assert(p[i] == s[i]); }
+        assert(free_ok(p, unit));
+        lemma_intersperse_free(p, unit);
+        assert(!free_pending(p)) by { assert(p.last() == s[s.len() - 2]); }
+        assert(nest_ok(s.last(), unit) && t_safe(s.last()));
+    } else if s.len() == 1 { assert(nest_ok(s[0], unit) && t_safe(s[0])); }
+}
